@@ -6,6 +6,7 @@ import ast
 import re
 
 from ..cfg import CFG
+from ..dtable import run_paths
 from ..normal import inline_temps
 from ..pattern import find, guards_of, pmatch
 from ..core import (AnalysisError, body_nodes, call_name, depends_on, dotted, is_self_attr,
@@ -36,44 +37,53 @@ def check_plus_hc(prog, rep):
         q = 'CouplingModel.' + f.name
         pm = params(f)
         cfg = CFG(f)
-        # ---- (a) the explicit_plus_hc guard
-        guard = None
-        for st in stmts_of(f):
-            if isinstance(st, ast.If) and unparse(st.test) == 'self.explicit_plus_hc':
-                guard = st
-                break
-        rep.instance('PLUSHC-guard', {'function': q, 'found': guard is not None})
-        halved = None
-        if guard is None:
-            rep.violation('PLUSHC-guard', m, q, 'no-guard',
-                          '%s has a plus_hc parameter but no `if self.explicit_plus_hc:` protocol: '
-                          'with explicit_plus_hc the stored terms are H instead of H/2 (+h.c. '
-                          'implicit), i.e. the represented operator doubles' % q, f.lineno)
+        # ---- (a) the explicit_plus_hc protocol as a decision table over (explicit, plus_hc)
+        halve = []
+        for pat in ('$s /= 2', '$s /= 2.0', '$s = $s / 2', '$s = $s / 2.0', '$s = 0.5 * $s',
+                    '$s *= 0.5'):
+            halve += find(pat, f)
+        setf = find('plus_hc = False', f)
+        top = None
+        for k, st in enumerate(f.body):
+            if any(n is x for x in ast.walk(st) for n, _ in halve + setf):
+                top = k
+        rep.instance('PLUSHC-guard', {'function': q, 'found': top is not None})
+        halved = halve[0][1]['$s'] if halve else None
+        guard = f.body[top] if top is not None else None
+        if top is None or not halve or not setf:
+            rep.violation('PLUSHC-guard', m, q, 'no-guard' if top is None else 'guard-shape',
+                          '%s has a plus_hc parameter but no complete explicit_plus_hc protocol '
+                          '(drop the explicit h.c. / halve the strength): with explicit_plus_hc '
+                          'the stored terms are H instead of H/2 (+h.c. implicit), i.e. the '
+                          'represented operator doubles' % q, f.lineno)
         else:
-            inner = [s for s in guard.body if isinstance(s, ast.If) and
-                     unparse(s.test) == 'plus_hc']
-            ok = False
-            if inner:
-                t = inner[0]
-                sets_false = any(isinstance(s, ast.Assign) and unparse(s.targets[0]) == 'plus_hc'
-                                 and unparse(s.value) == 'False' for s in t.body)
-                for s in t.orelse:
-                    if isinstance(s, ast.AugAssign) and isinstance(s.op, ast.Div) and \
-                            unparse(s.value) in ('2', '2.0'):
-                        halved = unparse(s.target)
-                    if isinstance(s, ast.Assign) and isinstance(s.value, ast.BinOp) and \
-                            isinstance(s.value.op, ast.Div) and \
-                            unparse(s.value.right) in ('2', '2.0') and \
-                            unparse(s.value.left) == unparse(s.targets[0]):
-                        halved = unparse(s.targets[0])
-                    if isinstance(s, ast.Assign) and isinstance(s.value, ast.BinOp) and \
-                            isinstance(s.value.op, ast.Mult) and '0.5' in unparse(s.value):
-                        halved = unparse(s.targets[0])
-                ok = sets_false and halved is not None
+            prefix = [s2 for s2 in f.body[:top + 1]
+                      if not (isinstance(s2, ast.Expr) and isinstance(s2.value, ast.Constant))]
+            hn = {id(n) for n, _ in halve}
+            ok = True
+            table = {}
+            for e in (True, False):
+                for p_ in (True, False):
+                    outs = set()
+                    for path in run_paths(prefix, {'self.explicit_plus_hc': e}, {'plus_hc': p_}):
+                        if path.outcome != 'fall':      # left before the terms are added
+                            continue
+                        did_h = any(id(x) in hn for st2 in path.trace for x in ast.walk(st2))
+                        outs.add((did_h, path.env.get('plus_hc', '?')))
+                    table[(e, p_)] = outs
+                    want = {(False, False)} if (e and p_) else (
+                        {(True, False)} if e else {(False, p_)})
+                    if outs != want:
+                        ok = False
+            rep.instance('PLUSHC-guard', {'function': q, 'table': {
+                '%s/%s' % k: sorted(map(str, v)) for k, v in table.items()}})
             if not ok:
                 rep.violation('PLUSHC-guard', m, q, 'guard-shape',
                               'under explicit_plus_hc the method must either drop the explicit '
-                              'h.c. (plus_hc = False) or halve the strength', guard.lineno)
+                              'h.c. (plus_hc = False, strength unchanged) or halve the strength; '
+                              'without it nothing changes. Table (explicit, plus_hc) -> '
+                              '(halved, plus_hc afterwards): %s' % {
+                                  k: sorted(map(str, v)) for k, v in table.items()}, guard.lineno)
             else:
                 # the guard precedes every term-adding call, and the halved variable feeds them
                 defs = local_defs(f)
@@ -82,8 +92,7 @@ def check_plus_hc(prog, rep):
                         st = c
                         while not isinstance(st, ast.stmt):
                             st = parent(st)
-                        if st.lineno < guard.lineno or not cfg.dominators_like_before(
-                                st, lambda nd: nd.stmt is guard):
+                        if st.lineno < guard.lineno:
                             rep.violation('PLUSHC-guard', m, q, 'term-before-guard',
                                           '`%s` adds terms before the explicit_plus_hc guard' %
                                           unparse(c)[:60], c.lineno)
@@ -97,14 +106,17 @@ def check_plus_hc(prog, rep):
                                               'the guard halves `%s` but `%s` adds the term with '
                                               '`%s`, which does not depend on it' %
                                               (halved, unparse(c)[:50], unparse(sarg)), c.lineno)
-        # ---- (b) the trailing `if plus_hc:` block
-        blocks = [st for st in f.body if isinstance(st, ast.If) and unparse(st.test) == 'plus_hc']
-        rep.instance('PLUSHC-hc-block', {'function': q, 'found': bool(blocks)})
-        if not blocks:
+        # ---- (b) the statements executed only for plus_hc=True after the guard
+        hc_stmts = [st for st in ast.walk(f) if isinstance(st, ast.stmt) and
+                    not isinstance(st, (ast.If, ast.For, ast.While, ast.FunctionDef)) and
+                    (guard is None or st.lineno > getattr(guard, 'end_lineno', guard.lineno)) and
+                    ('plus_hc', True) in {(t, pol) for t, pol, _ in guards_of(f, st)}]
+        rep.instance('PLUSHC-hc-block', {'function': q, 'found': bool(hc_stmts)})
+        if not hc_stmts:
             rep.violation('PLUSHC-hc-block', m, q, 'no-hc-block',
                           'plus_hc=True does not add the Hermitian conjugate terms', f.lineno)
             continue
-        blk = blocks[-1]
+        blk = type('Blk', (), {'body': hc_stmts, 'lineno': hc_stmts[0].lineno})()
         strength_param = pm[1]
         calls = [c for s in blk.body for c in ast.walk(s) if isinstance(c, ast.Call) and
                  call_name(c) in TERM_ADDERS]
@@ -325,12 +337,18 @@ def check_term_classes(prog, rep):
                           'connections are stored as %s but unpacked as %s' % (made, got),
                           un[0].lineno)
     # CouplingTerms.add_coupling_term accumulates (same key -> strengths add up)
-    f = m.func('CouplingTerms.add_coupling_term')
+    f = inline_temps(m.func('CouplingTerms.add_coupling_term'))
     rep.instance('TERMS-accumulate', {})
-    ok = any(isinstance(s, ast.Assign) and isinstance(s.value, ast.BinOp) and isinstance(
-        s.value.op, ast.Add) and '.get(' in unparse(s.value) and 'strength' in unparse(s.value)
-        for s in stmts_of(f)) or any(isinstance(s, ast.AugAssign) and isinstance(s.op, ast.Add)
-                                     for s in stmts_of(f))
+    ok = False
+    for st in ast.walk(f):
+        # D[k] = D.get(k, 0) + strength   |   D[k] += strength (after setdefault)   on the leaf dict
+        e = pmatch('$$d[$$k] = $$d.get($$k, $$z) + strength', st) if isinstance(
+            st, ast.Assign) else None
+        if e:
+            ok = True
+        if isinstance(st, ast.AugAssign) and isinstance(st.op, ast.Add) and \
+                unparse(st.value) == 'strength' and isinstance(st.target, ast.Subscript):
+            ok = True
     if not ok:
         rep.violation('TERMS-accumulate', m, 'CouplingTerms.add_coupling_term', 'overwrite',
                       'adding a term that already exists must add the strengths, not replace',
